@@ -111,3 +111,12 @@ Theorem C02_outside_known_example :
   length (run_query w_sch (w_ideal ex_L) ex_L ex_q) = 4 /\ length (events ex_L) = 6.
 Proof. exact outside_known_example. Qed.
 Print Assumptions C02_outside_known_example.
+
+(** … and so are those of layout independence (the same events kept in memory only). *)
+Theorem C02_layout_independent_example :
+  Permutation (events ex_L) (events ex_L_mem) /\
+  mixed_provenance w_sch (w_ideal ex_L_mem) ex_L_mem ex_q = false /\
+  leaves_sound w_sch (w_ideal ex_L_mem) ex_L_mem ex_q = true /\
+  length (run_query w_sch (w_ideal ex_L_mem) ex_L_mem ex_q) = 4.
+Proof. exact layout_independent_example. Qed.
+Print Assumptions C02_layout_independent_example.
